@@ -21,11 +21,11 @@ ACQ = ('acquire', 'acq_rel', 'seq_cst'); REL = ('release', 'acq_rel', 'seq_cst')
 
 
 class Ev:
-    __slots__ = ('tid', 'idx', 'kind', 'addr', 'n', 'val', 'order', 'where', 'aux')
+    __slots__ = ('tid', 'idx', 'kind', 'addr', 'n', 'val', 'order', 'where', 'aux', 'init')
 
     def __init__(self, tid, kind, addr=0, n=0, val=None, order=None, where='', aux=None):
         self.tid = tid; self.kind = kind; self.addr = addr; self.n = n; self.val = val; self.order = order; self.where = where; self.aux = aux
-        self.idx = -1
+        self.idx = -1; self.init = False
 
     def __repr__(self):
         return 'T%d:%s@%x/%d%s' % (self.tid, self.kind, self.addr, self.n, (' ' + self.order) if self.order else '')
@@ -42,6 +42,13 @@ class MT:
         self.irm = irm; self.shared = []        # (lo, hi) address ranges
         for g in shared_globals:
             o = irm.gobj[g]; self.shared.append((o.base, o.base + o.size))
+        # guard variables of function-local statics are shared by construction (see the __cxa_guard_* models below)
+        self.guards = []
+        for g, o in irm.gobj.items():
+            if g.startswith('_ZGV'):
+                self.guards.append((o.base, o.base + o.size))
+                if g not in shared_globals:
+                    self.shared.append((o.base, o.base + o.size))
         self.timeout = timeout; self.max_steps = max_steps
         self.nrd = 0
         self.stats = dict(thread_paths=0, combinations=0, queries=0, solver_s=0.0, events_max=0)
@@ -220,7 +227,7 @@ class MT:
                 keep = []; seen = set()
                 for e in p.events:
                     k = (e.kind, e.addr, e.n, e.order)
-                    if e.kind in ('r', 'w') and k in seen:
+                    if e.kind in ('r', 'w') and k in seen and not (e.kind == 'r' and e.val is not None):
                         continue          # between two synchronisation events only the first access of a kind to a location matters for hb
                     if e.kind not in ('r', 'w'):
                         seen = set()
@@ -228,6 +235,19 @@ class MT:
                         seen.add(k)
                     keep.append(e)
                 p.events = keep
+        if self.races_only:
+            # sequential semantics: every thread runs the initialisation of a function-local static itself.  In a real execution
+            # one thread does, and the guard orders it before every later access: accesses inside a guarded initialisation
+            # (between the guard's lock and unlock) are therefore not candidates for a race
+            for p in paths:
+                inside = set()
+                for e in p.events:
+                    if e.kind == 'lock' and any(lo <= e.addr - 4 < hi for lo, hi in self.guards):
+                        inside.add(e.addr)
+                    elif e.kind == 'unlock' and e.addr in inside:
+                        inside.discard(e.addr)
+                    elif inside:
+                        e.init = True
         evs = []
         for p in paths:
             for e in p.events:
@@ -261,15 +281,26 @@ class MT:
                     open_[e.addr] = e
                 elif e.kind == 'unlock' and e.addr in open_:
                     sections.setdefault(e.addr, []).append((open_.pop(e.addr), e))
+            # a path that ends (e.g. in a violation) while it holds a lock never releases it
+            for addr_, l_ in open_.items():
+                sections.setdefault(addr_, []).append((l_, None))
         sw = []      # (cond, a, b): synchronises-with edges that depend on the schedule
         for m, secs in sections.items():
             for (l1, u1), (l2, u2) in itertools.combinations(secs, 2):
                 if l1.tid == l2.tid:
                     continue
+                if u1 is None or u2 is None:          # a lock that is never released: every other section of the mutex lies before it
+                    if u1 is None and u2 is None:
+                        base.append(z3.BoolVal(False))
+                    elif u1 is None:
+                        base.append(clk[u2.idx] < clk[l1.idx]); sw.append((z3.BoolVal(True), u2.idx, l1.idx))
+                    else:
+                        base.append(clk[u1.idx] < clk[l2.idx]); sw.append((z3.BoolVal(True), u1.idx, l2.idx))
+                    continue
                 base.append(z3.Or(clk[u1.idx] < clk[l2.idx], clk[u2.idx] < clk[l1.idx]))
                 sw.append((clk[u1.idx] < clk[l2.idx], u1.idx, l2.idx)); sw.append((clk[u2.idx] < clk[l1.idx], u2.idx, l1.idx))
         # reads-from
-        reads = [e for e in evs if e.kind in ('r', 'rmw-r') and not self.races_only]
+        reads = [e for e in evs if e.kind in ('r', 'rmw-r') and e.val is not None]
         writes = [e for e in evs if e.kind in ('w', 'rmw-w')]
         for r in reads:
             cands = [w for w in writes if w.addr < r.addr + r.n and r.addr < w.addr + w.n]
@@ -318,7 +349,7 @@ class MT:
         conf = []
         for a, b in itertools.combinations(evs, 2):
             if a.tid != b.tid and a.kind in ('r', 'w', 'rmw-r', 'rmw-w') and b.kind in ('r', 'w', 'rmw-r', 'rmw-w') and a.addr < b.addr + b.n and b.addr < a.addr + a.n \
-                    and ('w' in (a.kind[-1], b.kind[-1])) and (a.order is None or b.order is None):
+                    and ('w' in (a.kind[-1], b.kind[-1])) and (a.order is None or b.order is None) and not getattr(a, 'init', False) and not getattr(b, 'init', False):
                 conf.append((a, b))
         if conf:
             hb = [[z3.Bool('hb_%d_%d' % (i, j)) for j in range(n)] for i in range(n)]
@@ -393,6 +424,37 @@ def _mutex_ev(kind):
     return f
 
 
+# thread-safe initialisation of function-local statics ([stmt.dcl]/4, Itanium ABI 3.3.2): the guard byte is read with acquire
+# semantics; an unset guard is acquired under a lock that is held until __cxa_guard_release() stores 1 with release semantics
+_seq_guard_acq = EXTERNALS['__cxa_guard_acquire']; _seq_guard_rel = EXTERNALS['__cxa_guard_release']
+
+
+def x_mt_guard_acquire(eng, st, a):
+    if eng.mt is None or not isinstance(eng.mt, MT) or eng.mt.collect:
+        return _seq_guard_acq(eng, st, a)
+    g = a[0]; key = ('guard-acq', g)
+    b = st.ext.get(key)
+    if b is None:                 # (the instruction is re-executed by the forked side of decide(): emit the events once)
+        eng.mt._ev(st, Ev(st.ext.get('tid', 0), 'lock', g + 4, 0, None, None, eng.where(st)[:120]))
+        b = eng.mem_read(st, g, 1, 'acquire')[0]
+        st.ext[key] = b
+    e = b if isinstance(b, int) else (b[0] if b[0].size() == 8 else z3.Extract(8 * b[1] + 7, 8 * b[1], b[0]))
+    unset = (e == 0) if isinstance(e, int) else eng.decide(st, e == 0)
+    st.ext.pop(key, None)
+    if unset:
+        return 1
+    eng.mt._ev(st, Ev(st.ext.get('tid', 0), 'unlock', g + 4, 0, None, None, eng.where(st)[:120]))
+    return 0
+
+
+def x_mt_guard_release(eng, st, a):
+    if eng.mt is None or not isinstance(eng.mt, MT) or eng.mt.collect:
+        return _seq_guard_rel(eng, st, a)
+    eng.mem_write(st, a[0], [1], 'release')
+    eng.mt._ev(st, Ev(st.ext.get('tid', 0), 'unlock', a[0] + 4, 0, None, None, eng.where(st)[:120]))
+
+
+EXTERNALS['__cxa_guard_acquire'] = x_mt_guard_acquire; EXTERNALS['__cxa_guard_release'] = x_mt_guard_release
 EXTERNALS['pthread_mutex_lock'] = _mutex_ev('lock')
 EXTERNALS['pthread_mutex_unlock'] = _mutex_ev('unlock')
 
